@@ -9,7 +9,10 @@ A *case* is {'chans': [cfg...], 'ops': [op...]}:
         ['app', side, i, 'arm', k] | ['deliver', side] | ['burst', k] (starting case: SUCCESS reply + k messages
         arrive at the client in ONE chunk, then its `_start_reading` task runs) |
         ['raw', side, i, 'data', dt|None, hex] | ['raw', side, i, 'adjust', n] | ['raw', side, i, 'eof'|'close']
-        (a message a hostile peer puts on the wire regardless of any accounting, delivered to `side` at once)
+        (a message a hostile peer puts on the wire regardless of any accounting, delivered to `side` at once) |
+        ['req', 'a', i] (the client sends a SECOND `shell` request on the running channel; it travels behind the
+        messages in flight and reaches the server through a later ['deliver', 'b']: result `in=R`, the reply shown
+        as wire message `S` / `F`)
 
 `model_lines(case)` renders the case for lean/Drivers/C07.lean; `RealRun` realises it on a real
 SSHClientConnection / SSHServerConnection pair (raw SSHClientSession / SSHServerSession callback API, manual hub,
@@ -23,7 +26,7 @@ import random
 from typing import Any, Callable, Dict, List, Optional, Tuple
 
 import asyncssh
-from asyncssh.packet import String, UInt32, SSHPacket
+from asyncssh.packet import Boolean, String, UInt32, SSHPacket
 
 import capture
 import pair
@@ -32,8 +35,9 @@ from vlib import hx, unhx
 MSG_DISCONNECT = 1
 MSG_OPEN, MSG_CONFIRM = 90, 91
 MSG_ADJUST, MSG_DATA, MSG_EXT, MSG_EOF, MSG_CLOSE = 93, 94, 95, 96, 97
-MSG_SUCCESS = 99
+MSG_REQUEST, MSG_SUCCESS, MSG_FAILURE = 98, 99, 100
 DATA_MSGS = (MSG_ADJUST, MSG_DATA, MSG_EXT, MSG_EOF, MSG_CLOSE)
+STOP_MSGS = DATA_MSGS + (MSG_REQUEST,)      # a `deliver` operation ends with one message of these kinds
 
 PACKET_BUDGET = 6000          # packets one operation may emit before it is declared a spinning send loop
 
@@ -81,6 +85,8 @@ def op_lines(op: List[Any], case: Dict[str, Any]) -> List[str]:
         return ['deliver %s' % op[1]]
     if op[0] == 'burst':
         return ['deliver a'] * op[1] + ['app a %d start' % (len(case['chans']) - 1)]
+    if op[0] == 'req':
+        return ['req %s %d' % (op[1], op[2])]
     if op[0] == 'raw':
         _, side, i, kind = op[:4]
         if kind == 'data':
@@ -147,19 +153,28 @@ class _Sess:
         self.chan: Any = None
         self.pause_after: Optional[int] = None
         self.seen = 0
+        # the application's own view of its pause: set when IT calls pause_reading(), cleared when IT calls
+        # resume_reading(); a data callback in between is recorded with the index of the running operation
+        self.app_paused = False
+        self.pause_violations: List[int] = []
+        self.clock: Callable[[], int] = lambda: -1
+        self.started = 0
 
     def connection_made(self, chan: Any) -> None:
         self.chan = chan
 
     def session_started(self) -> None:
-        pass
+        self.started += 1
 
     def data_received(self, data: Any, datatype: Any) -> None:
         self.ev.append(('d', datatype, data))
+        if self.app_paused:
+            self.pause_violations.append(self.clock())
         if self.pause_after is not None:
             if self.pause_after == 0:
                 self.pause_after = None
                 self.chan.pause_reading()
+                self.app_paused = True
             else:
                 self.pause_after -= 1
 
@@ -237,6 +252,12 @@ def show_payload(payload: bytes) -> Tuple[int, int, str]:
         return t, chan, 'E'
     if t == MSG_CLOSE:
         return t, chan, 'C'
+    if t == MSG_REQUEST:
+        return t, chan, 'R'
+    if t == MSG_SUCCESS:
+        return t, chan, 'S'
+    if t == MSG_FAILURE:
+        return t, chan, 'F'
     return t, chan, '?%d' % t
 
 
@@ -273,6 +294,7 @@ class RealRun:
         self.op_index = -1
         self.results: List[str] = []
         self.log: List[Tuple[List[Any], str]] = []
+        self.req_tasks: List[Any] = []
 
     # -- plumbing ------------------------------------------------------------------------------------------
 
@@ -402,6 +424,7 @@ class RealRun:
         self.scan = {'a': len(self.sent('a')) - self.t0['a'], 'b': len(self.sent('b')) - self.t0['b']}
         for s in self.csess + self.ssess:
             s.take()
+            s.clock = lambda: self.op_index
 
     def chan(self, side: str, i: int) -> Any:
         return self.cchan[i] if side == 'a' else self.ssess[i].chan
@@ -421,7 +444,8 @@ class RealRun:
         for _seq, payload in pk:
             if payload[0] == MSG_DISCONNECT:
                 fatal = classify_disconnect(payload)
-            elif payload[0] in DATA_MSGS:
+            elif payload[0] in DATA_MSGS or payload[0] in (MSG_SUCCESS, MSG_FAILURE):
+                # (SUCCESS / FAILURE after the set-up phase: the reply to a second session request)
                 _t, rc, text = show_payload(payload)
                 i = self.local[peer].get(rc, -1)
                 out.setdefault(i, []).append(text)
@@ -483,7 +507,9 @@ class RealRun:
                     ch.close()
                 elif kind == 'pause':
                     ch.pause_reading()
+                    ss.app_paused = True
                 elif kind == 'resume':
+                    ss.app_paused = False
                     ch.resume_reading()
                 elif kind == 'arm':
                     ss.pause_after = op[4]
@@ -510,7 +536,7 @@ class RealRun:
             d = self.direction_to(side)
             while self._npending(d) > 0:
                 t, payload = self._deliver_one(d)
-                if t in DATA_MSGS:
+                if t in STOP_MSGS:
                     _t, rc, text = show_payload(payload)
                     i = self.local[side].get(rc, -1)
                     await pair.settle(6)
@@ -539,6 +565,17 @@ class RealRun:
             await pair.settle(10)
             i = len(self.cfgs) - 1
             return self._result('a', i, '*')
+        if op[0] == 'req':
+            _, side, i = op
+            ch = self.chan(side, i)
+            # no public API sends a second session request: the channel's own request primitive (a no-op once
+            # its `_send_chan` is None)
+            task = asyncio.ensure_future(ch._make_request(b'shell'))
+            task.add_done_callback(lambda t: t.cancelled() or t.exception())    # (the reply may never come)
+            self.req_tasks.append(task)
+            await pair.settle(6)
+            self._check_aligned()
+            return self._result(side, i, '-')
         if op[0] == 'raw':
             _, side, i, kind = op[:4]
             hostile = 'b' if side == 'a' else 'a'
@@ -628,6 +665,9 @@ async def _run_case(case: Dict[str, Any], stop_at: Optional[int] = None, drain: 
     res['dead'] = run.dead
     res['log'] = run.log
     res['events'] = {'a': [list(s.ev) for s in run.csess], 'b': [list(s.ev) for s in run.ssess]}
+    res['pause_violations'] = {'a': [list(s.pause_violations) for s in run.csess],
+                               'b': [list(s.pause_violations) for s in run.ssess]}
+    res['sessions_started'] = {'a': [s.started for s in run.csess], 'b': [s.started for s in run.ssess]}
     return res
 
 
@@ -672,7 +712,7 @@ def gen_cfg(rng: random.Random, profile: str) -> Dict[str, Any]:
     return cfg
 
 
-def gen_write(rng: random.Random, case: Dict[str, Any], side: str, i: int, pending_text: Dict[Tuple[str, int], bytes]
+def gen_write(rng: random.Random, case: Dict[str, Any], side: str, i: int, pending_text: Dict[Any, bytes]
               ) -> List[Any]:
     cfg = case['chans'][i]
     recv_window = cfg['wb'] if side == 'a' else cfg['wa']
@@ -696,8 +736,10 @@ def gen_write(rng: random.Random, case: Dict[str, Any], side: str, i: int, pendi
     if sender_text:
         data = gen_text_bytes(rng, n)
     elif receiver_text:
-        # a bytes sender feeding a decoding receiver: valid UTF-8 cut at arbitrary byte positions across writes
-        key = (side, i)
+        # a bytes sender feeding a decoding receiver: per data type valid UTF-8 (each data type is a stream of its
+        # own: a process' stdout and stderr pipes), cut at arbitrary byte positions across writes — so a write on
+        # the other data type may fall in the middle of a character
+        key = (side, i, dt)
         buf = pending_text.get(key, b'')
         if len(buf) < n:
             buf += gen_text_bytes(rng, n - len(buf) + 4)
@@ -759,11 +801,58 @@ def gen_textenc(rng: random.Random) -> Dict[str, Any]:
     return case
 
 
+MULTIBYTE = ['é', 'ß', '€', 'ࠀ', '￿', '😀', '\U0010ffff', '퟿']
+
+
+def gen_textclose(rng: random.Random, dec_only: bool = False) -> Dict[str, Any]:
+    """a text receiver reads multi-byte text through small packets, its application calls close() after a few of
+    them (most packet boundaries fall inside a character); the honest sender goes on and ends with EOF and / or
+    CLOSE.  Mode 'dec': UTF-8 receiver, bytes sender (also run through the model); mode 'enc': both ends text
+    channels in one of the stateful encodings."""
+    recv = rng.choice('ab')
+    send = 'b' if recv == 'a' else 'a'
+    mode = 'dec' if dec_only or rng.random() < 0.4 else 'enc'
+    cfg: Dict[str, Any] = {'wa': rng.choice([64, 256, 1 << 21]), 'wb': rng.choice([64, 256, 1 << 21]),
+                           'pa': rng.choice([32, 100, 32768]), 'pb': rng.choice([32, 100, 32768]),
+                           'keepA': rng.random() < 0.8, 'keepB': rng.random() < 0.8, 'pausedA': 'n',
+                           'decA': False, 'decB': False}
+    cfg['p' + recv] = rng.choice([1, 2, 3, 4, 5, 7])        # the receiver's maximum packet size cuts characters
+    if mode == 'enc':
+        cfg['enc'], cfg['errors'] = rng.choice([('utf-8', 'strict'), ('utf-16', 'strict'), ('utf-8-sig', 'strict'),
+                                                ('utf-32', 'strict'), ('utf-16-le', 'strict')])
+    else:
+        cfg['dec' + recv.upper()] = True
+    case: Dict[str, Any] = {'profile': 'textclose', 'chans': [cfg], 'ops': []}
+    ops = case['ops']
+
+    def text(n: int) -> str:
+        return ''.join(rng.choice(MULTIBYTE + ['a', '\n']) for _ in range(n))
+    for _ in range(rng.randint(1, 2)):
+        dt = 1 if send == 'b' and rng.random() < 0.25 else None
+        ops.append(['app', send, 0, 'write', dt, hx(text(rng.randint(2, 8)).encode('utf-8'))])
+    if rng.random() < 0.3:
+        ops.append(['app', recv, 0, 'arm', rng.randint(0, 2)])      # ... or it pauses first and closes while paused
+    ops += [['deliver', recv]] * rng.randint(1, 7)
+    ops.append(['app', recv, 0, 'close'])
+    if rng.random() < 0.5:
+        ops.append(['app', send, 0, 'write', None, hx(text(rng.randint(1, 4)).encode('utf-8'))])
+    ops += [['deliver', rng.choice('ab')] for _ in range(rng.randint(0, 8))]
+    r = rng.random()
+    ops += [['app', send, 0, 'eof']] if r < 0.45 else [['app', send, 0, 'close']] if r < 0.8 else \
+        [['app', send, 0, 'eof'], ['app', send, 0, 'close']]
+    ops += [['deliver', recv]] * rng.randint(2, 12)
+    case['drain_from'] = len(ops)
+    return case
+
+
 def gen_case(rng: random.Random, profile: str = 'stream') -> Dict[str, Any]:
     """profiles: stream (C07 default), tiny (windows <= 8), multi (3-4 channels), starting (burst before the
-    client starts reading), hostile (C08: raw peer), zero (max packet size 0)"""
+    client starts reading), hostile (C08: raw peer), zero (max packet size 0), textenc (both ends text, stateful
+    encodings), textclose / textclose-dec (the text receiver closes in the middle of a character)"""
     if profile == 'textenc':
         return gen_textenc(rng)
+    if profile in ('textclose', 'textclose-dec'):
+        return gen_textclose(rng, dec_only=profile == 'textclose-dec')
     if profile == 'multi':
         nchan = rng.choice([2, 3, 4, 4])
     elif profile in ('starting', 'hostile', 'zero'):
@@ -772,7 +861,7 @@ def gen_case(rng: random.Random, profile: str = 'stream') -> Dict[str, Any]:
         nchan = rng.choice([1, 1, 1, 2, 2, 3])
     case: Dict[str, Any] = {'profile': profile, 'chans': [gen_cfg(rng, profile) for _ in range(nchan)], 'ops': []}
     ops = case['ops']
-    pending_text: Dict[Tuple[str, int], bytes] = {}
+    pending_text: Dict[Any, bytes] = {}
     if profile == 'zero':
         case['chans'][0]['pa'] = 0
         case['chans'][0]['decA'] = case['chans'][0]['decB'] = False
@@ -809,6 +898,8 @@ def gen_case(rng: random.Random, profile: str = 'stream') -> Dict[str, Any]:
             ops.append(['app', side, i, 'eof'])
         elif r < 0.975:
             ops.append(['app', side, i, 'close'])
+        elif r < 0.985 and profile in ('stream', 'tiny', 'multi'):
+            ops.append(['req', 'a', i])         # the client asks for a second shell on the running channel
         else:
             ops += [['deliver', side]] * rng.randint(2, 6)
     # final drain: everybody reads, every message is delivered
